@@ -91,10 +91,14 @@ def run_code(prj: Project, fi, n: int, o: Oracle):
         if isinstance(f, tuple) and f and f[0] == "class" and f[1] is pattern_cls:
             if len(args) < 1 or not isinstance(args[0], int):
                 raise Unknown("Pattern(...) not started at an integer position")
-            p = Sym(f"pattern@{args[0]}", start=args[0], end=args[0], tokens=[], _consumed=0)
+            # an abstract attempt: an instance of the repo's Pattern class whose consume / is_accepting / state are answered by the
+            # oracle; every other method of the class (helpers a refactoring added) is interpreted from its source
+            p = Sym(f"pattern@{args[0]}", _cls=pattern_cls, start=args[0], end=args[0], tokens=[], _consumed=0)
             p.fields["automata"] = args[1] if len(args) > 1 else None
             pats.setdefault(args[0], []).append(p)
             return p
+        if isinstance(f, BoundFunc) and isinstance(f.self_obj, Sym) and f.self_obj.name.startswith("pattern@") and f.fi.name in ("is_accepting", "consume"):
+            f = ("method", f.self_obj, f.fi.name)
         if isinstance(f, tuple) and f and f[0] == "method" and isinstance(f[1], Sym) and f[1].name.startswith("pattern@"):
             p, name = f[1], f[2]
             i = p.fields["start"]
@@ -161,3 +165,56 @@ def describe(div) -> str:
         if st:
             lines.append(f"attempt from {i} [{'; '.join(st)}]")
     return f"sequence of {n} items, " + " ".join(lines) + f": find_all reports {div['got']}, required {div['want']}"
+
+
+class _FixedOracle:
+    """answers computed from the reference automaton of a concrete pattern on a concrete sequence"""
+
+    def __init__(self, ans):
+        self.ans = ans
+
+    def ask(self, key):
+        return self.ans(key)
+
+
+def concrete(prj: Project, trees, seqs, alphabet=("a", "b")):
+    """find_all interpreted through the repo's own engine (expression_to_nfa, nfa_to_dfa, Pattern, predicates) on concrete
+    patterns and sequences, compared with the reference semantics instantiated by the reference automaton of the pattern.
+    -> (cases, first divergence (pattern, sequence, got, want) or None)"""
+    from .engine_eval import Engine, reference_dfa
+    fi = prj.func(QUAL)
+    n = 0
+    for p in trees:
+        states, s0, acc, delta = reference_dfa(p, alphabet)
+        sink = frozenset()
+        for w in seqs:
+            def ans(key, w=w):
+                kind, i, k = key
+                st = s0
+                for c in w[i:i + k]:
+                    st = delta[(st, c)]
+                if kind == "acc":
+                    return st in acc
+                if kind == "dead":
+                    return all(delta[(st, c)] == sink for c in alphabet)
+                nxt = w[i + k] if i + k < len(w) else None
+                return nxt is not None and delta[(st, nxt)] != sink
+            want = reference(len(w), _FixedOracle(ans))
+            eng = Engine(prj)
+            eng.it.steps = 0
+            try:
+                r = eng.it.call(fi, [eng.expr(p), list(w)], {})
+                r = r.rest() if hasattr(r, "rest") else r
+                got = [(x.fields.get("start"), x.fields.get("end")) if isinstance(x, Sym) else x for x in r]
+                for x in r:
+                    toks = eng.it.getattr(x, "tokens", fi, None) if isinstance(x, Sym) else None
+                    s_, e_ = (x.fields.get("start"), x.fields.get("end")) if isinstance(x, Sym) else (None, None)
+                    if isinstance(toks, list) and isinstance(s_, int) and isinstance(e_, int) and list(toks) != list(w[s_:e_]):
+                        got = f"a match ({s_}, {e_}) whose recorded items are {toks}"
+                        break
+            except PyRaise as e:
+                got = f"raises {e.name}"
+            n += 1
+            if got != want:
+                return n, (p, w, got, want)
+    return n, None
